@@ -28,10 +28,11 @@ class Universe:
         def spend(ins, outs):
             return Tx([(op[0], op[1], b'\x01\x51', 0xffffffff) for op in ins],
                       [(v, S[k]) for k, v in outs])
-        t1 = spend([u1[0]], [('A', u1[1] // 2), ('B', u1[1] // 2 - 500)])
-        t2 = spend([(t1.txid, 0)], [('C', u1[1] // 2 - 100)])
+        # t1 carries a data output FIRST: the positions of its spendable outputs are 1 and 2
+        t1 = spend([u1[0]], [('F', 0), ('A', u1[1] // 2), ('B', u1[1] // 2 - 500)])
+        t2 = spend([(t1.txid, 1)], [('C', u1[1] // 2 - 100)])
         t3 = spend([(t2.txid, 0)], [('D', u1[1] // 2 - 300), ('R', 0)])
-        t4 = spend([u2[0], (t1.txid, 1)], [('A', u2[1] + u1[1] // 2 - 900)])
+        t4 = spend([u2[0], (t1.txid, 2)], [('A', u2[1] + u1[1] // 2 - 900)])
         t5 = Tx([(bytes(32), 0xffffffff, b'\x02\x51\x52', 0xffffffff)], [(777, S['B'])])
         t6 = spend([u3[0]], [('A', 1000), ('A', 2000), ('A', u3[1] - 4000)])
         t7 = spend([col1], [('D', 25_0000_0000 - 50)])
